@@ -39,7 +39,7 @@ MIN_DECIDING = {"sweep_runs": 40, "schedules_run": 500, "distinct_schedule_trace
 NOTICE = "Please update to the latest ascmhl version using `pip3 install -U ascmhl`.\n"
 _srv = {}
 
-TAGS = ["v0.0.1", "v99.0.0", "v99.0.0-alpha.2", "v99.dev1", "garbage", "", None, 123, "99", "v1.2.3.4.5", "v99.0.0rc1"]
+TAGS = ["v0.0.1", "v99.0.0", "v99.0.0-alpha.2", "v99.dev1", "garbage", "", None, 123, "99", "v1.2.3.4.5", "v99.0.0rc1", "continuous-integration-build-nightly", "a" * 64, "release_" * 8, "v" + "9" * 400, "1.0." + "0." * 60 + "1"]
 
 
 def budget(tier):
